@@ -64,7 +64,69 @@ static void scenario(int nlisteners, int ncalls, bool keep_signal_handle) {
     }
 }
 
+// hook_up(): the coroutine is subscribed and the registration function handed the collector in one step, so a signal
+// generator that emits right away - here: a thread started (and joined) by the registration function itself - already
+// reaches the listener; later calls come from a collector thread.
+static cocls::async<void> hook_listener(std::optional<Sig::collector> &keep, bool emit_in_registration) {
+    int64_t *s = vrt_scratch();
+    auto e = Sig::hook_up([&keep, emit_in_registration](Sig::collector c) {
+        if (emit_in_registration) {
+            vstd::thread gen([c] {
+                vrt_label("generator");
+                c(1);
+            });
+            gen.join();
+        }
+        keep.emplace(std::move(c));
+    });
+    for (;;) {
+        try {
+            int &v = co_await e;
+            int64_t n = s[0]++;
+            if (n < 6) s[1 + n] = v;
+        } catch (const cocls::await_canceled_exception &) {
+            s[8]++;
+            break;
+        }
+    }
+    s[9] = 1;
+}
+static void hook_scenario(bool emit_in_registration, int ncalls) {
+    int64_t *s = vrt_scratch();
+    {
+        std::optional<Sig::collector> keep;
+        vstd::thread lt([&] {
+            vrt_label("listener0");
+            hook_listener(keep, emit_in_registration).detach();
+        });
+        lt.join();
+        VRT_CHECK(keep.has_value(), "signal/hook_up-not-registered", "hook_up() did not hand a collector to the registration function on the first co_await");
+        vstd::thread ct([&] {
+            vrt_label("collector");
+            for (int v = 2; v < 2 + ncalls; v++) (*keep)(v);
+            keep.reset();
+        });
+        ct.join();
+        vrt_label("main-wait-listener-released");
+        while (!s[9]) vrt_yield();
+        vrt_label("main");
+        VRT_CHECK(s[8] == 1, "signal/cancel-count", "hooked listener saw %ld cancellations", (long)s[8]);
+        int64_t want_n = (emit_in_registration ? 1 : 0) + ncalls;
+        VRT_CHECK(s[0] == want_n, s[0] < want_n ? "signal/listener-missed-value" : "signal/duplicate-delivery",
+                  "hooked listener received %ld values, %ld were emitted while it was subscribed (the first of them from inside the registration function: %d)", (long)s[0],
+                  (long)want_n, (int)emit_in_registration);
+        for (int k = 0; k < s[0] && k < 6; k++) {
+            long want = (emit_in_registration ? 1 : 2) + k;
+            VRT_CHECK(s[1 + k] == want, "signal/listener-wrong-value", "hooked listener received %ld as value #%d, expected %ld", (long)s[1 + k], k, want);
+        }
+        vrt_outcome("n=%ld", (long)s[0]);
+    }
+}
+
 VRT_REGISTER(reg_signal) {
+    for (int emit = 0; emit < 2; emit++)
+        for (int nc = 0; nc <= 2; nc++) vrt::add(std::string("sig_hookup_") + (emit ? "emit" : "plain") + "_calls" + std::to_string(nc), [=] { hook_scenario(emit != 0, nc); });
+
     for (int nl = 1; nl <= 2; nl++)
         for (int nc = 0; nc <= 2; nc++)
             for (int keep = 0; keep < 2; keep++) {
